@@ -634,6 +634,40 @@ def run(ctx, ck):
                 ok = mfl.cfg.must_pass(mfl.node_id_of(c), {cnode}, start=first)
                 ck.ob('R-ORDER.sweep', 'main|compute-before-%s' % name, ok, mainf.loc(c),
                       '%s is preceded by compute() in the same iteration' % name)
+        # nothing but the loop index is carried from one step of the sweep to the next: a local that is assigned
+        # inside the loop is assigned before it is read in every iteration
+        lt_ = {x_.id for x_ in ast.walk(l.target) if isinstance(x_, ast.Name)}
+        body_nodes = [x_ for b_ in l.body for x_ in ast.walk(b_)]
+        assigned_in = {}
+        for x_ in body_nodes:
+            if isinstance(x_, ast.Name) and isinstance(x_.ctx, ast.Store) and x_.id not in lt_:
+                st_ = enclosing_stmt(x_)
+                if isinstance(st_, (ast.Assign, ast.AugAssign, ast.AnnAssign, ast.For, ast.With)):
+                    assigned_in.setdefault(x_.id, set()).add(mfl.node_id_of(st_))
+        n_car = 0
+        for nm_, dids in sorted(assigned_in.items()):
+            dids = {d_ for d_ in dids if d_ is not None}
+            if not dids:
+                continue
+            for x_ in body_nodes:
+                if isinstance(x_, ast.Name) and isinstance(x_.ctx, ast.Load) and x_.id == nm_:
+                    st_ = enclosing_stmt(x_)
+                    rid = mfl.node_id_of(st_)
+                    if rid is None or rid in dids and isinstance(st_, ast.AugAssign):
+                        continue
+                    if rid in dids and not isinstance(st_, ast.AugAssign):
+                        # `x = f(x)`: reads the previous value unless another definition comes first
+                        others = dids - {rid}
+                        okc = bool(others) and mfl.cfg.must_pass(rid, others, start=first)
+                    else:
+                        okc = mfl.cfg.must_pass(rid, dids, start=first)
+                    n_car += 1
+                    if not okc:
+                        ck.ob('R-ORDER.sweep', 'main|carried|%s' % nm_, False, mainf.loc(st_),
+                              '`%s` is assigned inside the sweep loop but can be read in a step before that step has assigned '
+                              'it: the value of the previous step (or of the other field request) is used' % nm_)
+                        break
+        ck.ob('R-ORDER.sweep', 'main|no-carried-locals', True, mainf.loc(l), '%d reads of loop-assigned locals examined' % n_car)
         prints = [c for c in calls_in(l, name='print')
                   if any(isinstance(x, ast.Attribute) and x.attr in ('as_mininec', 'frq_dependent_as_mininec')
                          for x in ast.walk(c))]
